@@ -35,6 +35,7 @@ RULE = ("Hypothesis builds an EAM model (1..4 elements from real and invented la
         "declaration, or a zero-filled pair/function, or an override that beats the built-in table; distinct = "
         "canonical JSON.")
 ASSUMPTIONS = [
+    "rows are taken at the float the property's own row formula gives (k*delpot; i*step; i*cutoff/(nr-1)); a row that sits EXACTLY on a range boundary is compared (the marker decides its side), a row within 64 ulp of a boundary without being on it is not (nothing can be said about which side a last-bit difference puts it on)",
     "the order of elements in the header is taken as the reference order for potable routes (API routes must "
     "keep the order of the EAMPotential list); the header's fifth number (cutoff) is not constrained",
     "built-in element data are read from the package's table as data and cross-checked against a hard-coded "
@@ -42,7 +43,7 @@ ASSUMPTIONS = [
 ]
 REQUIRED = {"route:writeSetFL": 10, "route:class": 10, "route:potable:setfl": 10, "route:potable:lammps_eam_alloy": 10,
             "elements>=3": 20, "reversed_pair": 20, "zero_filled_pair": 20, "override_beats_builtin": 10,
-            "zero_filled_function": 10, "zero_override_beats_builtin": 2, "rewrite:2_writes": 2}
+            "zero_filled_function": 10, "zero_override_beats_builtin": 2, "rewrite:2_writes": 2, "break_on_row": 5}
 FMT = ("e", 16)
 
 
@@ -60,6 +61,15 @@ def _case(draw, n_min=1, n_max=4):
 
 
 @st.composite
+def _node_case(draw):
+    m = draw(_case(1, 3))
+    if m["grid"]["nr"] < 3 or m["grid"]["nrho"] < 3:
+        m["grid"]["nr"] += 3
+        m["grid"]["nrho"] += 3
+    return eamtab.with_node_breaks(draw, m)
+
+
+@st.composite
 def _rewrite(draw):
     m = draw(_case(1, 3))
     m["route"] = draw(st.sampled_from(["writeSetFL", "class"]))
@@ -72,7 +82,7 @@ def strategy(tier):
 
 
 def strata(tier):
-    return [("1-2 elements", _case(1, 2), 4), ("3-4 elements", _case(3, 4), 6), ("rewrite", _rewrite(), 2)]
+    return [("1-2 elements", _case(1, 2), 4), ("3-4 elements", _case(3, 4), 6), ("rewrite", _rewrite(), 2), ("break_on_row", _node_case(), 1)]
 
 
 def budget(tier):
@@ -82,7 +92,7 @@ def budget(tier):
 
 
 def classes(m):
-    cls = []
+    cls = ["break_on_row"] if m.get("node_breaks") else []
     els = eamtab.element_set(m)
     if len(els) >= 3:
         cls.append("elements>=3")
